@@ -41,6 +41,7 @@ pub fn run_workload(sub: u64, only_n: Option<u64>, acc: &mut Acc, ctx: &Ctx, _th
         if invert {
             args.push("-v".into());
         }
+        args.extend(gen_harmless_flags(&mut Rng::new(sub ^ 0xF1A6), &["-i", "-S"]));
         args.extend(["foo".into(), "w/doc.txt".into()]);
         let spec = RunSpec { args, plan: if frag { vec!["read_frag=5".into()] } else { vec!["noop=1".into()] }, ..RunSpec::default() };
         let got = ctx.run(&scratch, &spec, 60);
